@@ -93,6 +93,9 @@ func ackLists(w *World) []val {
 		{"mixed-garbage", append(append([]string{}, w.LiveAck...), "zzz")},
 		{"unknown-wellformed", []string{"00000000-0000-4000-8000-000000000001"}},
 		{"duplicate", append(append([]string{}, w.LiveAck...), w.LiveAck...)},
+		{"repeated-stale", append(append(append([]string{}, w.StaleAck...), w.StaleAck...), w.StaleAck...)},
+		{"repeated-unknown", []string{"00000000-0000-4000-8000-000000000001", "00000000-0000-4000-8000-000000000002", "00000000-0000-4000-8000-000000000001", "00000000-0000-4000-8000-000000000002"}},
+		{"same-unknown-three-times", []string{"00000000-0000-4000-8000-000000000001", "00000000-0000-4000-8000-000000000001", "00000000-0000-4000-8000-000000000001"}},
 	}
 }
 
